@@ -139,7 +139,7 @@ P = D.DesignProperty(
     rule=("case = (design spec, optional continuous factors, history of 3-8 library calls starting and ending with synthesize_trials); the "
           "block snapshot is compared after every step; non-trivial = the history contains a synthesize after at least one other kind of "
           "call and some experiment was returned; distinct = distinct case JSON"),
-    cfg_quick=CFG, n_quick=50, n_thorough=2000, case_limit=(25, 120), strategy=cases,
+    cfg_quick=CFG, n_quick=50, n_thorough=500, case_limit=(25, 120), strategy=cases,
     limits={"max_T": {"quick": 8, "thorough": 12}},
     assumptions=["vp/ref.py implements the documented semantics (validity of the discrete part)",
                  "an exception raised by a non-synthesizing call is recorded as a class, not judged: the property concerns the block afterwards"])
